@@ -57,6 +57,12 @@ CLAIMS = {
          "Decides the gate: a replica with a recovery strategy is marked up only behind strategy.AllowRecovery(), and every fuse records its time. Cool-down arithmetic is not covered.", "", "§4 C27"),
  "C28": ("who-may-call/who-may-write tables + edge dominance + must-pass on trigger edges",
          "Decides 'no other event changes a node's status' and 'up only after a successful probe; the stated triggers always mark down'. Elapsed-time and lag values are not covered.", "", "§4 C28"),
+ "C31": ("edge dominance + must-pass-through on the prepare/commit gates of the two-slot reload, who-may-write on the slot switch",
+         "Decides only the gates: a commit fails without a pending prepare and switches the slot only after consuming it; a prepare always parks a configuration rebuilt from the configuration it was given and sets the prepared flag; the active slot changes only in commit/delete; whoever else overwrites the inactive slot invalidates a pending prepare. The interleaving statement of the property (all histories of prepare/commit/delete, one complete generation per session) is not decided.",
+         "", "§4 C31 / §9"),
+ "C37": ("who-may-touch on the wheel state + must-pass-through (replace on re-registration, fire once then forget, refresh on every command, removal on exit)",
+         "Decides the structure of the idle timer: wheel state only on the wheel goroutine, re-registration replaces the older entry, removal clears both maps, a fired entry is forgotten, callbacks start only when the rounds are exhausted, every command records activity and the session's exit removes it from the timer. Tick/round arithmetic ('no earlier than the timeout, no later than one tick') and refreshes dropped by a full pipeline are not decided.",
+         "", "§4 C37 / §9"),
  "C32": ("must-pass-through from the store-update success edge to every failure exit + call-graph containment",
          "Decides that every failure exit after the store was changed passes the store rollback, and whether proxies are compensated after a partial commit. Timeouts/retries and concurrent changes are not covered.", "", "§4 C32"),
  "C33": ("taint analysis over SSA def-use: string parameters -> safeJoinPath (sanitizer) -> os file sinks",
@@ -84,9 +90,7 @@ NA = {
  "C17": "Statement splitting versus the grammar over all texts (language equivalence over inputs).",
  "C29": "Credential-to-namespace mapping across reloads depends on string contents (':' in passwords) and reload histories; the authentication gate itself is checked under C35.",
  "C30": "Equality with the mysql_native_password / caching_sha2 scrambles for all salts and passwords is a cryptographic value property.",
- "C31": "Needs interleavings of prepare/commit/delete over the two-slot manager; a lock lint is neither necessary nor sufficient for the stated property.",
  "C36": "Metamorphic equality of the fingerprint over statement variants is a property of string transformations.",
- "C37": "Tick/round arithmetic of the time wheel over histories; no static bound on the slot pipeline.",
 }
 
 # properties whose check exits 0 on the current tree (rules built, findings triaged: fixed or listed as known)
